@@ -466,6 +466,60 @@ def _check(st, evs, B):
 _VERSION = [""]
 
 
+def fault_arm(bld, F, tot):
+    """Name sources while their lookups fail (descriptor table full: EMFILE; a passwd entry that does not fit the lookup buffer:
+    ERANGE).  An error text is a truthful answer then; the name of a *different* identity, or the no-such-user placeholder for
+    an id that has an entry, is not.  In vitro (the record itself could not be written with a full descriptor table)."""
+    from vlib.common import mkwork, rmwork
+    from vlib.drive import run_vdrive
+    exe = vbuild.build_vitro(bld, asan=False)
+    work = mkwork("c12f")
+    os.chmod(work, 0o755)
+    try:
+        with open(os.path.join(work, "passwd"), "w") as f:
+            f.write("root:x:0:0:root:/root:/bin/sh\nfaultuser:x:4242:4242:%s:/home/f:/bin/sh\nplain:x:4243:4243:p:/:/bin/sh\n" % ("G" * 3000))
+        with open(os.path.join(work, "group"), "w") as f:
+            f.write("root:x:0:\nfaultgroup:x:4242:%s\nplaingroup:x:4243:\n" % ",".join("member%d" % i for i in range(600)))
+        names = ["username", "eusername", "group", "egroup", "tty_username", "login", "cwd", "hostname", "tty", "rpname", "cgroup", "ipaddr", "domain"]
+        s = Script()
+        s.raw("nosinks")
+        s.raw("bind %s %s" % (os.path.join(work, "passwd").encode().hex(), b"/etc/passwd".hex()))
+        s.raw("bind %s %s" % (os.path.join(work, "group").encode().hex(), b"/etc/group".hex()))
+        states = [("fd-table-full", 4243, ["nofilelimit 0"]), ("entry-larger-than-lookup-buffer", 4242, []), ("both", 4242, ["nofilelimit 0"])]
+        for si, (sname, uid, pre) in enumerate(states):
+            s.fork(si + 1)
+            s.raw("stdin pty")
+            s.raw("gid %d %d %d" % (uid, uid, uid))
+            s.raw("uid %d %d %d" % (uid, uid, uid))
+            s.raw("vinit 0 %s %s %s" % (Script.elem(b"/bin/fault"), Script.vec([b"fault"]), Script.vec([b"E=1"])))
+            for p in pre:
+                s.raw(p)
+            for i, n in enumerate(names):
+                s.raw("vds %d %s %s 4096" % ((si + 1) * 100 + i, Script.elem(n.encode()), Script.elem(b"1" if n == "cgroup" else b"")))
+            s.raw("vcleanup 0")
+            s.endfork()
+        res = run_vdrive(bld, s.text(), os.path.join(work, "run"), exe=exe, preload=[os.path.join(HBIN, "libvrec.so")], timeout=120, mtx=False)
+        vs = {e["id"]: e for e in res.events if e["ev"] == "V"}
+        truth = {4242: (b"faultuser", b"faultgroup"), 4243: (b"plain", b"plaingroup")}
+        for si, (sname, uid, pre) in enumerate(states):
+            for i, n in enumerate(names):
+                v = vs.get((si + 1) * 100 + i)
+                wit = dict(state=sname, uid=uid, datasource=n)
+                if v is None:
+                    F.violation("C12:lookup-fault:call-did-not-return", "%%{%s} did not return in state %s" % (n, sname), wit)
+                    break
+                tot["lookup_fault_fields"] = tot.get("lookup_fault_fields", 0) + 1
+                got = bytes.fromhex(v["out"])
+                if n in ("username", "eusername", "group", "egroup"):
+                    true = truth[uid][0 if "user" in n else 1]
+                    errorish = any(x in got for x in (b"ERROR", b"rror", b"Unable", b"unable", b"(unknown)", b"(undefined)"))
+                    if got != true and not errorish:
+                        F.violation("C12:%s:lookup-fault" % n, "%%{%s} = %s while its lookup fails (%s): id %d is %s; an error text would be truthful, another name or the no-such-id placeholder is not" % (
+                            n, short(got, 80), sname, uid, true.decode()), dict(wit, got=got.decode("latin-1")[:200]))
+    finally:
+        rmwork(work)
+
+
 def secure_arm(bld, F, tot):
     """One more process state: the calling program was started through a set-uid transition (AT_SECURE=1, real uid 12345,
     effective uid 0) - what every set-uid program that execs something looks like.  LD_PRELOAD is ignored in that mode, so
@@ -537,6 +591,7 @@ def main():
     states = make_states(tr)
     F, tot = run_cases(PROP, bld, states, script_fn, _check, batch_size=25, keep=False)
     secure_arm(bld, F, tot)
+    fault_arm(bld, F, tot)
     if (tot.get("fields", 0) == 0 or tot.get("ok:tty", 0) == 0 or tot.get("ok:username", 0) == 0 or tot.get("secure_exec_fields", 0) == 0) and F.n_unlisted() == 0:
         raise Harness("observed too little: %s" % tot)
     if tot.get("record_count_mismatch", 0):
